@@ -211,6 +211,110 @@ def _rename_towards_reference(repo, ref):
     return renamed
 
 
+def specialise_factories(tree):
+    """NAME = factory(<constants>) at module level, where `factory` is a module-level function whose body is side-effect free
+    bindings followed by one inner function (def or lambda) that it returns, becomes `def NAME(...)`: the inner function with the
+    factory's parameters and bindings put in place (a struct.Struct(<format>) binding becomes struct.pack / unpack / calcsize of
+    the format, the size a number).  Eleven readers built by one closure factory are eleven functions again.  In memory only."""
+    import struct as _struct
+    factories = {}
+    for st in tree.body:
+        if isinstance(st, ast.FunctionDef) and not st.decorator_list and not st.args.vararg and not st.args.kwarg and not st.args.kwonlyargs:
+            body = [x for x in st.body if not (isinstance(x, ast.Expr) and isinstance(x.value, ast.Constant))]
+            if len(body) < 2 or not isinstance(body[-1], ast.Return):
+                continue
+            inner = None
+            pre = body[:-1]
+            ret = body[-1].value
+            if isinstance(ret, ast.Lambda):
+                inner = ret
+            elif isinstance(ret, ast.Name) and isinstance(pre[-1], ast.FunctionDef) and pre[-1].name == ret.id and not pre[-1].decorator_list:
+                inner = pre[-1]
+                pre = pre[:-1]
+            if inner is None:
+                continue
+            if not all(isinstance(x, ast.Assign) and len(x.targets) == 1 and isinstance(x.targets[0], ast.Name) for x in pre):
+                continue
+            bound = [x.targets[0].id for x in pre]
+            if len(set(bound)) != len(bound):
+                continue
+            # the inner function only reads what the factory bound
+            inner_stores = {x.id for x in ast.walk(inner) if isinstance(x, ast.Name) and isinstance(x.ctx, (ast.Store, ast.Del))} | \
+                {a_.arg for a_ in inner.args.args + inner.args.kwonlyargs + ([inner.args.vararg] if inner.args.vararg else []) + ([inner.args.kwarg] if inner.args.kwarg else [])}
+            params = [a_.arg for a_ in st.args.args]
+            if inner_stores & (set(bound) | set(params)):
+                continue
+            if any(isinstance(x, (ast.Nonlocal, ast.Global, ast.Yield, ast.YieldFrom, ast.Await)) for x in ast.walk(inner)):
+                continue
+            factories[st.name] = (st, params, pre, inner)
+    if not factories:
+        return 0
+    n = 0
+    for i, st in enumerate(list(tree.body)):
+        if not (isinstance(st, ast.Assign) and len(st.targets) == 1 and isinstance(st.targets[0], ast.Name) and isinstance(st.value, ast.Call)
+                and isinstance(st.value.func, ast.Name) and st.value.func.id in factories and not st.value.keywords):
+            continue
+        fdef, params, pre, inner = factories[st.value.func.id]
+        if len(st.value.args) != len(params) or not all(isinstance(a_, ast.Constant) for a_ in st.value.args):
+            continue
+        env = {p_: ast.unparse(a_) for p_, a_ in zip(params, st.value.args)}      # name -> expression text
+        structs = {}                                                              # name -> format
+        ok = True
+        for b_ in pre:
+            v = ast.parse(ast.unparse(b_.value), mode="eval").body
+            v = _SubstNames({k: "(%s)" % t for k, t in env.items()}).visit(v)
+            ast.fix_missing_locations(v)
+            if isinstance(v, ast.Call) and ast.unparse(v.func) in ("struct.Struct", "Struct") and len(v.args) == 1 and isinstance(v.args[0], ast.Constant) and isinstance(v.args[0].value, str):
+                structs[b_.targets[0].id] = v.args[0].value
+            elif isinstance(v, ast.Constant) or (isinstance(v, (ast.BinOp, ast.UnaryOp, ast.Tuple)) and all(isinstance(x, (ast.Constant, ast.BinOp, ast.UnaryOp, ast.Tuple, ast.operator,
+                                                                                                              ast.unaryop, ast.expr_context)) for x in ast.walk(v))):
+                env[b_.targets[0].id] = ast.unparse(v)
+            else:
+                ok = False
+        if not ok:
+            continue
+        body_src = ast.unparse(inner.body) if isinstance(inner, ast.Lambda) else "\n".join(ast.unparse(x) for x in inner.body)
+        if isinstance(inner, ast.Lambda):
+            body_src = "return " + body_src
+        new = ast.parse("def %s(%s):\n%s" % (st.targets[0].id, ast.unparse(inner.args), "\n".join("    " + l for l in body_src.splitlines()))).body[0]
+        new = _SubstNames({k: "(%s)" % t for k, t in env.items()}).visit(new)
+        ast.fix_missing_locations(new)
+        new = ast.parse(ast.unparse(new)).body[0]
+        for x in ast.walk(new):
+            for c in ast.iter_child_nodes(x):
+                c._parent = x
+        # struct objects of the factory
+        for x in [y for y in ast.walk(new) if isinstance(y, ast.Attribute) and isinstance(y.value, ast.Name) and y.value.id in structs]:
+            fmt = structs[x.value.id]
+            par = getattr(x, "_parent", None)
+            if x.attr == "size":
+                rep = ast.Constant(value=_struct.calcsize(fmt))
+                _replace_child(par, x, rep)
+                rep._parent = par
+            elif x.attr in ("pack", "unpack", "unpack_from", "pack_into", "iter_unpack") and isinstance(par, ast.Call) and par.func is x:
+                rep = ast.parse("struct.%s(%r)" % (x.attr, fmt), mode="eval").body
+                rep.args += par.args
+                rep.keywords = par.keywords
+                gp = getattr(par, "_parent", None)
+                _replace_child(gp, par, rep)
+                rep._parent = gp
+        new = ast.parse(ast.unparse(new)).body[0]
+        # a single-use temporary in front of the return
+        if len(new.body) == 2 and isinstance(new.body[0], ast.Assign) and len(new.body[0].targets) == 1 and isinstance(new.body[0].targets[0], ast.Name) and isinstance(new.body[1], ast.Return):
+            t = new.body[0].targets[0].id
+            uses = [x for x in ast.walk(new.body[1]) if isinstance(x, ast.Name) and x.id == t]
+            if len(uses) == 1 and not any(isinstance(x, ast.Name) and x.id == t for x in ast.walk(new.body[0].value)):
+                src_ = ast.unparse(_SubstNames({t: "(%s)" % ast.unparse(new.body[0].value)}).visit(new.body[1]))
+                new.body = ast.parse(src_).body
+        new = ast.parse(ast.unparse(new)).body[0]
+        for x in ast.walk(new):
+            ast.copy_location(x, st)
+        idx = [k for k, y in enumerate(tree.body) if y is st][0]
+        tree.body[idx] = new
+        n += 1
+    return n
+
+
 def apply_reference(repo):
     """rename locals / parameters of the in-memory ASTs to the reference names where the structure matches"""
     ref = load_reference()
